@@ -713,3 +713,189 @@ Section Monotone.
       destruct (is_enabled s3 o 0); destruct (o' =? o)%nat eqn:Eo'; destruct (g =? f)%nat eqn:Eg; cbn [andb] in M5; nia.
   Qed.
 End Monotone.
+
+(* ------------------------------------------------------------------------------------------
+   Consistency and what it gives. *)
+Section Consistency.
+  Variable T : tables.
+
+  Definition counted (s : state) : Prop := forall o g, 0 <= excess T s o g.
+  Definition off_unreferenced (s : state) : Prop := forall o g, is_enabled s o g = false -> rc s o g <= 0.
+  Definition consistent (s : state) : Prop := counted s /\ off_unreferenced s.
+
+  Lemma need_self_nonneg s o g : 0 <= need_self T s o g.
+  Proof. apply zsum_nonneg. intros; apply termS_nonneg. Qed.
+  Lemma need_alt_nonneg s o g : 0 <= need_alt s o g.
+  Proof. apply zsum_nonneg. intros; apply termA_nonneg. Qed.
+  Lemma need_par_nonneg s o g : 0 <= need_par T s o g.
+  Proof. apply zsum_nonneg. intros; apply termP_nonneg. Qed.
+
+  Lemma referenced_enabled s o g : consistent s -> 1 <= need T s o g -> is_enabled s o g = true.
+  Proof.
+    intros [C U] H. destruct (is_enabled s o g) eqn:E; [reflexivity|].
+    pose proof (U o g E). pose proof (C o g). unfold excess in *. lia.
+  Qed.
+
+  (* each enabled capability has its prerequisites enabled: requires_self *)
+  Lemma consistent_requires_self s o f g : consistent s ->
+    is_enabled s o f = true -> In g (f_self (feat T (cls_of s o) f)) -> is_enabled s o g = true.
+  Proof.
+    intros C He Hin. apply (referenced_enabled s o g C).
+    pose proof (need_alt_nonneg s o g). pose proof (need_par_nonneg s o g).
+    assert (1 <= need_self T s o g).
+    { unfold need_self. eapply Z.le_trans; [|apply (zsum_ge_term _ _ f)].
+      - unfold termS. rewrite He. apply zcnt_pos. exact Hin.
+      - apply in_seq. pose proof (enabled_in_range _ _ _ He) as R. apply Nat.ltb_lt in R. lia.
+      - intros; apply termS_nonneg. }
+    unfold need. lia.
+  Qed.
+
+  (* the alternative that was chosen for a requires_alt entry is enabled *)
+  Lemma consistent_alternates s o f g : consistent s -> In g (fs_alt (get_fs s o f)) -> is_enabled s o g = true.
+  Proof.
+    intros C Hin. apply (referenced_enabled s o g C).
+    pose proof (need_self_nonneg s o g). pose proof (need_par_nonneg s o g).
+    assert (R : (f < nf s o)%nat).
+    { destruct (Nat.lt_ge_cases f (nf s o)) as [L|L]; [exact L|]. unfold get_fs in Hin. fold (nf s o) in L.
+      rewrite (nth_overflow _ _ L) in Hin. contradiction. }
+    assert (1 <= need_alt s o g).
+    { unfold need_alt. eapply Z.le_trans; [|apply (zsum_ge_term _ _ f)].
+      - unfold termA. apply zcnt_pos. exact Hin.
+      - apply in_seq. lia.
+      - intros; apply termA_nonneg. }
+    unfold need. lia.
+  Qed.
+
+  (* what an enabled feature of an ACTIVE object requires of its children is enabled in every child *)
+  Lemma consistent_requires_children s p f g c : consistent s ->
+    is_enabled s p 0 = true -> is_enabled s p f = true -> In g (f_children (feat T (cls_of s p) f)) ->
+    In c (o_children (get_obj s p)) -> is_enabled s c g = true.
+  Proof.
+    intros C Ha He Hg Hc. apply (referenced_enabled s c g C).
+    pose proof (need_self_nonneg s c g). pose proof (need_alt_nonneg s c g).
+    assert (Lp : (p < length s)%nat).
+    { destruct (Nat.lt_ge_cases p (length s)) as [L|L]; [exact L|].
+      pose proof (enabled_in_range _ _ _ Ha) as R. rewrite (nf_overflow _ _ L) in R. discriminate. }
+    assert (1 <= wch T s p g).
+    { eapply Z.le_trans; [|apply (wch_ge_term T s p g f (enabled_in_range _ _ _ He))].
+      unfold termC. rewrite He. apply zcnt_pos. exact Hg. }
+    assert (1 <= need_par T s c g).
+    { unfold need_par. eapply Z.le_trans; [|apply (zsum_ge_term _ _ p)].
+      - unfold termP. rewrite Ha. pose proof (zcnt_pos c _ Hc). nia.
+      - apply in_seq. lia.
+      - intros; apply termP_nonneg. }
+    unfold need. lia.
+  Qed.
+
+  (* ---- preservation *)
+  Lemma off_unreferenced_disable n o f s r s' : disable T n o f s = Some (r, s') -> off_unreferenced s -> off_unreferenced s'.
+  Proof.
+    intros H. apply (disable_rel T (fun a b => off_unreferenced a -> off_unreferenced b)) with (n := n) (o := o) (f := f) (r := r); auto.
+    - intros a o1 f1 U o2 g2 E. unfold off_unreferenced, rc, is_enabled in *. rewrite get_fs_set_fs in *.
+      destruct (_ && _); [cbn [fs_decr fs_enabled fs_rc] in *; pose proof (U o2 g2 E); lia | apply U; exact E].
+    - intros a o1 f1 U o2 g2 E. unfold off_unreferenced, rc, is_enabled in *. rewrite get_fs_set_fs in *.
+      destruct (_ && _); [cbn [fs_clear_alt fs_enabled fs_rc] in *; apply U; exact E | apply U; exact E].
+    - intros a o1 f1 U o2 g2 E. unfold off_unreferenced, rc, is_enabled in *. rewrite get_fs_set_fs in *.
+      destruct (_ && _); [cbn [fs_turn_off fs_rc]; lia | apply U; exact E].
+  Qed.
+
+  Lemma off_unreferenced_free n o s s' : free_children_deps T n o s = Some s' -> off_unreferenced s -> off_unreferenced s'.
+  Proof.
+    intros H. apply (free_children_deps_rel T (fun a b => off_unreferenced a -> off_unreferenced b)) with (n := n) (o := o); auto.
+    - intros a o1 f1 U o2 g2 E. unfold off_unreferenced, rc, is_enabled in *. rewrite get_fs_set_fs in *.
+      destruct (_ && _); [cbn [fs_decr fs_enabled fs_rc] in *; pose proof (U o2 g2 E); lia | apply U; exact E].
+    - intros a o1 f1 U o2 g2 E. unfold off_unreferenced, rc, is_enabled in *. rewrite get_fs_set_fs in *.
+      destruct (_ && _); [cbn [fs_clear_alt fs_enabled fs_rc] in *; apply U; exact E | apply U; exact E].
+    - intros a o1 f1 U o2 g2 E. unfold off_unreferenced, rc, is_enabled in *. rewrite get_fs_set_fs in *.
+      destruct (_ && _); [cbn [fs_turn_off fs_rc]; lia | apply U; exact E].
+  Qed.
+
+  Section WithHeight.
+    Variable ht : nat -> nat.
+
+    Definition heights (s : state) : Prop := forall p c, In c (o_children (get_obj s p)) -> (ht c < ht p)%nat.
+
+    Theorem disable_keeps_excess n o f s r s' : heights s ->
+      disable T n o f s = Some (r, s') -> forall o' g, excess T s o' g <= excess T s' o' g.
+    Proof. intros Hh H. apply (disable_dmono T ht s Hh n o f s r s' H (same_shape_refl s)). Qed.
+
+    Theorem disable_consistent n o f s r s' : heights s ->
+      disable T n o f s = Some (r, s') -> consistent s -> consistent s'.
+    Proof.
+      intros Hh H [C U]. split; [|eapply off_unreferenced_disable; eassumption].
+      intros o' g. pose proof (disable_keeps_excess n o f s r s' Hh H o' g). pose proof (C o' g). lia.
+    Qed.
+
+    Lemma zsum_le l F G : (forall x, In x l -> F x <= G x) -> zsum l F <= zsum l G.
+    Proof.
+      induction l as [|a l IH]; intros H; cbn [zsum]; [lia|].
+      pose proof (H a (or_introl eq_refl)). assert (zsum l F <= zsum l G) by (apply IH; intros x Hx; apply H; right; exact Hx). lia.
+    Qed.
+
+    (* unlinking the children of an object: nothing but need_par changes, and it can only go down;
+       exactly: the term of that object disappears *)
+    Lemma rac_view b s :
+      length (remove_all_children b s) = length s /\
+      forall x, cls_of (remove_all_children b s) x = cls_of s x /\ o_fs (get_obj (remove_all_children b s) x) = o_fs (get_obj s x) /\
+                o_children (get_obj (remove_all_children b s) x) = if ((x =? b) && (b <? length s))%nat then [] else o_children (get_obj s x).
+    Proof.
+      split; [apply remove_all_children_length|]. intros x. unfold cls_of. rewrite remove_all_children_obj. cbn. auto.
+    Qed.
+
+    Lemma excess_rac b s o' g :
+      excess T (remove_all_children b s) o' g = excess T s o' g + (if (b <? length s)%nat then termP T s o' g b else 0).
+    Proof.
+      destruct (rac_view b s) as (L & V). set (s' := remove_all_children b s) in *.
+      assert (Efs : forall x f, get_fs s' x f = get_fs s x f) by (intros x f; unfold get_fs; destruct (V x) as (_ & A & _); rewrite A; reflexivity).
+      assert (Een : forall x f, is_enabled s' x f = is_enabled s x f) by (intros; unfold is_enabled; rewrite Efs; reflexivity).
+      assert (Enf : forall x, nf s' x = nf s x) by (intros x; unfold nf; destruct (V x) as (_ & A & _); rewrite A; reflexivity).
+      assert (Ecl : forall x, cls_of s' x = cls_of s x) by (intros x; destruct (V x) as (A & _); exact A).
+      assert (ES : need_self T s' o' g = need_self T s o' g).
+      { unfold need_self. rewrite Enf. apply zsum_ext. intros f _. unfold termS. rewrite Een, Ecl. reflexivity. }
+      assert (EA : need_alt s' o' g = need_alt s o' g).
+      { unfold need_alt. rewrite Enf. apply zsum_ext. intros f _. unfold termA. rewrite Efs. reflexivity. }
+      assert (EW : forall p g', wch T s' p g' = wch T s p g').
+      { intros p g'. unfold wch. rewrite Enf. apply zsum_ext. intros f _. unfold termC. rewrite Een, Ecl. reflexivity. }
+      assert (EP : need_par T s' o' g = need_par T s o' g - (if (b <? length s)%nat then termP T s o' g b else 0)).
+      { unfold need_par. rewrite L.
+        rewrite (zsum_seq_upd (length s) (termP T s o' g) (termP T s' o' g) b).
+        - assert (Hb : termP T s' o' g b = if (b <? length s)%nat then 0 else termP T s o' g b).
+          { unfold termP. rewrite Een, EW. destruct (V b) as (_ & _ & C). rewrite C, Nat.eqb_refl. cbn [andb].
+            destruct (b <? length s)%nat; [rewrite zcnt_nil; destruct (is_enabled s b 0); lia | reflexivity]. }
+          rewrite Hb. destruct (b <? length s)%nat; lia.
+        - intros x Hx. unfold termP. rewrite Een, EW. destruct (V x) as (_ & _ & C). rewrite C.
+          assert (E : (x =? b)%nat = false) by (apply Nat.eqb_neq; exact Hx). rewrite E. reflexivity. }
+      unfold excess, need, rc. rewrite Efs, ES, EA, EP. lia.
+    Qed.
+
+    Lemma rac_consistent b s : consistent s -> consistent (remove_all_children b s).
+    Proof.
+      intros [C U]. split.
+      - intros o' g. rewrite excess_rac. pose proof (C o' g). pose proof (termP_nonneg T s o' g b). destruct (b <? length s)%nat; lia.
+      - intros o' g E. destruct (rac_view b s) as (_ & V). unfold rc, is_enabled, get_fs in *. destruct (V o') as (_ & A & _). rewrite A in *. apply U. exact E.
+    Qed.
+
+    Theorem delete_bias_consistent n b s s' : heights s ->
+      delete_bias T n b s = Some s' -> consistent s -> consistent s'.
+    Proof.
+      intros Hh H [C U]. unfold delete_bias in H. destruct (is_enabled s b 0) eqn:Ea.
+      - destruct (free_children_deps T n b s) as [s1|] eqn:E1; [|discriminate]. inversion H; subst. clear H.
+        destruct (mono_free_with T ht s Hh (disable T n) (disable_dshape T n) (disable_dmono T ht s Hh n) (disable_dbelow T ht s Hh n) b s s1 E1 (same_shape_refl s))
+          as (S1 & Eo & M).
+        split.
+        + intros o' g. rewrite excess_rac. specialize (M o' g). pose proof (C o' g).
+          assert (Lb : (b <? length s1)%nat = true).
+          { destruct S1 as [L1 _]. rewrite L1. apply Nat.ltb_lt.
+            destruct (Nat.lt_ge_cases b (length s)) as [L|L]; [exact L|].
+            pose proof (enabled_in_range _ _ _ Ea) as R. rewrite (nf_overflow _ _ L) in R. discriminate. }
+          rewrite Lb. unfold termP.
+          assert (Ea1 : is_enabled s1 b 0 = true) by (unfold is_enabled, get_fs; rewrite Eo; exact Ea).
+          assert (Ew : wch T s1 b g = wch T s b g).
+          { unfold wch, nf. rewrite Eo. apply zsum_ext. intros f _. unfold termC, is_enabled, get_fs, cls_of. rewrite Eo. reflexivity. }
+          rewrite Ea1, Ew, Eo. lia.
+        + intros o' g E. destruct (rac_view b s1) as (_ & V). unfold rc, is_enabled, get_fs in *. destruct (V o') as (_ & A & _). rewrite A in *.
+          eapply (off_unreferenced_free n b s s1 E1 U). exact E.
+      - inversion H; subst. apply rac_consistent. split; assumption.
+    Qed.
+  End WithHeight.
+End Consistency.
